@@ -421,6 +421,22 @@ def build_unusual(case: dict) -> tuple[int, bytes]:
             return 1, build.open_with_caps(65001, 90, 0x0A000002, caps, grouping='each', extended=True)
         # RFC 9072: one parameter may now be longer than 255 bytes
         return 1, build.open_body(4, 65001, 90, 0x0A000002, [(2, b''.join(caps))], extended=True)
+    if shape == 'flow-size':
+        # a FlowSpec NLRI of exactly n octets (destination prefix + port tests), in the one-octet length form below 240 and
+        # the two-octet form 0xFnnn from 240 on (RFC 8955 4.1): both sides of every boundary of that field
+        v6, vpn = bool(case.get('v6')), bool(case.get('vpn'))
+        value = (bytes(8) if vpn else b'') + (bytes([1, 32, 0, 0x20, 0x01, 0x0D, 0xB8]) if v6 else bytes([1, 24, 10, 0, 0]))
+        room = n - len(value) - 1
+        two = {0: 0, 2: 1, 1: 2}[room % 3]
+        three = (room - 2 * two) // 3
+        ops = [bytes([0x11]) + (1000 + i).to_bytes(2, 'big') for i in range(three)] + [bytes([0x01, 10 + i]) for i in range(two)]
+        ops[-1] = bytes([ops[-1][0] | 0x80]) + ops[-1][1:]
+        value += bytes([5]) + b''.join(ops)
+        assert len(value) == n
+        nlri = (bytes([n]) if n < 240 else (0xF000 | n).to_bytes(2, 'big')) + value
+        mp = bytes([0, 2 if v6 else 1, 134 if vpn else 133, 0, 0]) + nlri
+        attrs = build.attribute(0x40, 1, b'\x00') + build.attribute(0x40, 2, build.aspath([(2, [65001])], True)) + build.attribute(0x80, 14, mp)
+        return 2, build.update_body(b'', attrs, b'')
     if shape == 'open-param-length':
         # the optional parameters are exactly `total` octets long, in the RFC 4271 form (one length octet, 255 included)
         # or in the RFC 9072 form; an unknown capability is the filler
@@ -451,10 +467,16 @@ def unusual_cases(draw):
     shape = draw(
         st.sampled_from(
             ['unknown-attrs-distinct'] * 3 + ['unknown-attrs-repeated'] * 3 + ['unknown-attr-long', 'aspath-max', 'aspath-max', 'many-nlri', 'many-nlri', 'many-withdrawn', 'many-mp-v6']
-            + ['max-size'] * 3 + ['open-many-caps'] * 3 + ['open-big-caps', 'open-param-length']
+            + ['max-size'] * 3 + ['open-many-caps'] * 3 + ['open-big-caps', 'open-param-length', 'flow-size']
         )
     )  # fmt: skip
     case: dict = {'shape': shape}
+    if shape == 'flow-size':
+        case['neg'] = draw(st.sampled_from([5, 5, 10]))
+        case['n'] = draw(st.sampled_from([20, 238, 239, 240, 241, 247, 255, 256, 257, 300, 1000, 4000]))
+        case['v6'] = draw(st.booleans())
+        case['vpn'] = draw(st.booleans())
+        return case
     if shape == 'open-param-length':
         case['neg'] = draw(st.sampled_from([0, 1, 12]))
         case['extended'] = draw(st.booleans())
@@ -522,6 +544,9 @@ def unusual_fixed() -> list:
     out.append({'shape': 'max-size', 'neg': 12, 'n': 50, 'pad': 'large-community'})
     out.append({'shape': 'open-many-caps', 'neg': 0, 'n': 126, 'form': 'one-param', 'unknown': True})
     out.append({'shape': 'open-many-caps', 'neg': 0, 'n': 2030, 'form': 'extended-one', 'unknown': True})
+    for n in (239, 240, 241, 247, 255, 256, 4000):
+        for v6, vpn in ((False, False), (True, False), (False, True)):
+            out.append({'shape': 'flow-size', 'neg': 5, 'n': n, 'v6': v6, 'vpn': vpn})
     for extended, totals in ((False, (253, 254, 255)), (True, (254, 255, 256, 300))):
         for total in totals:
             for split in (False, True):
